@@ -699,10 +699,12 @@ static int cabd_find(struct mscab_decompressor_p *self, unsigned char *buf,
         if (p++ < pend) state = 1;
         break;
 
-      /* verify that the next 3 bytes are 'S', 'C' and 'F' */
-      case 1: state = (*p++ == 0x53) ? 2 : 0; break;
-      case 2: state = (*p++ == 0x43) ? 3 : 0; break;
-      case 3: state = (*p++ == 0x46) ? 4 : 0; break;
+      /* verify that the next 3 bytes are 'S', 'C' and 'F'. a byte that does
+       * not fit is looked at again in state 0: it may be the 'M' that
+       * starts the real signature (as in "MMSCF") */
+      case 1: if (*p == 0x53) { p++; state = 2; } else state = 0; break;
+      case 2: if (*p == 0x43) { p++; state = 3; } else state = 0; break;
+      case 3: if (*p == 0x46) { p++; state = 4; } else state = 0; break;
 
       /* we don't care about bytes 4-7 (see default: for action) */
 
